@@ -336,6 +336,9 @@ class World(object):
         if not due:
             return False
         dc = due[i % len(due)]
+        if dc.kind == "thread":
+            # Twisted's callFromThread queue is FIFO: deferred calls never overtake each other
+            dc = [c for c in due if c.kind == "thread"][0]
         if dc.time > self.reactor.now:
             self.reactor.now = dc.time
         self.note("fire", dc.kind, dc.name())
